@@ -250,4 +250,210 @@ theorem fq6WriteBE_injective : Function.Injective fq6WriteBE :=
 theorem fq12WriteBE_injective : Function.Injective fq12WriteBE :=
   Function.LeftInverse.injective fq12ReadBE_fq12WriteBE
 
+/-! ## `exponentiate` on the tower -/
+
+/-- `exponentiate<Fq2, BigInt<bits>>` etc.: the power by the exponent as a `bits`-bit integer, in the field structures
+of `Proofs/FqTower.lean` (whose ring operations are the Spec's). -/
+theorem fq2Exponentiate_eq (bits : Nat) (a : Fq2) (e : Nat) : fq2Exponentiate bits a e = a ^ (e % 2 ^ bits) :=
+  fpExponentiate_eq bits a e
+theorem fq6Exponentiate_eq (bits : Nat) (a : Fq6) (e : Nat) : fq6Exponentiate bits a e = a ^ (e % 2 ^ bits) :=
+  fpExponentiate_eq bits a e
+theorem fq12Exponentiate_eq (bits : Nat) (a : Fq12) (e : Nat) : fq12Exponentiate bits a e = a ^ (e % 2 ^ bits) :=
+  fpExponentiate_eq bits a e
+
+theorem fq2Exponentiate_eq_pow {bits : Nat} (a : Fq2) {e : Nat} (he : e < 2 ^ bits) :
+    fq2Exponentiate bits a e = a ^ e := fpExponentiate_eq_pow a he
+theorem fq6Exponentiate_eq_pow {bits : Nat} (a : Fq6) {e : Nat} (he : e < 2 ^ bits) :
+    fq6Exponentiate bits a e = a ^ e := fpExponentiate_eq_pow a he
+theorem fq12Exponentiate_eq_pow {bits : Nat} (a : Fq12) {e : Nat} (he : e < 2 ^ bits) :
+    fq12Exponentiate bits a e = a ^ e := fpExponentiate_eq_pow a he
+
+/-- … and the Spec's literal square-and-multiply power `npow` (the one `frobSpec` is made of). -/
+theorem fq2Exponentiate_eq_npow {bits : Nat} (a : Fq2) {e : Nat} (he : e < 2 ^ bits) :
+    fq2Exponentiate bits a e = npow a e := by rw [fq2Exponentiate_eq_pow a he, npow_eq_pow]
+theorem fq6Exponentiate_eq_npow {bits : Nat} (a : Fq6) {e : Nat} (he : e < 2 ^ bits) :
+    fq6Exponentiate bits a e = npow a e := by rw [fq6Exponentiate_eq_pow a he, npow_eq_pow]
+theorem fq12Exponentiate_eq_npow {bits : Nat} (a : Fq12) {e : Nat} (he : e < 2 ^ bits) :
+    fq12Exponentiate bits a e = npow a e := by rw [fq12Exponentiate_eq_pow a he, npow_eq_pow]
+
+/-- the `RESIST_SIDE_CHANNELS` build computes the same -/
+theorem fq2ExponentiateCT_eq (bits : Nat) (a : Fq2) (e : Nat) :
+    fq2ExponentiateCT bits a e = fq2Exponentiate bits a e := by
+  rw [fq2Exponentiate_eq]; exact fpExponentiateCT_eq bits a e
+theorem fq6ExponentiateCT_eq (bits : Nat) (a : Fq6) (e : Nat) :
+    fq6ExponentiateCT bits a e = fq6Exponentiate bits a e := by
+  rw [fq6Exponentiate_eq]; exact fpExponentiateCT_eq bits a e
+theorem fq12ExponentiateCT_eq (bits : Nat) (a : Fq12) (e : Nat) :
+    fq12ExponentiateCT bits a e = fq12Exponentiate bits a e := by
+  rw [fq12Exponentiate_eq]; exact fpExponentiateCT_eq bits a e
+
+/-- `exponentiate(res, a, q^k)` with a wide enough exponent type is the Frobenius power of the Spec. -/
+theorem fq12Exponentiate_frobSpec {bits : Nat} (a : Fq12) {k : Nat} (hk : q ^ k < 2 ^ bits) :
+    fq12Exponentiate bits a (q ^ k) = frobSpec a k := fq12Exponentiate_eq_npow a hk
+
+/-! ## `Fq2::norm`, `Fq2::legendre`, `Fq2::square_root` -/
+
+theorem fq2Norm_eq (a : Fq2) : fq2Norm a = Q2.norm a := rfl
+/-- … which is what the generated `Fq2::norm` computes (second argument = the C++ output slot) -/
+theorem fq2Norm_eq_gen (a : Fq2) (r : Fq) : fq2Norm a = Gen.Fq2.norm a r := rfl
+
+theorem fq2Legendre_eq (a : Fq2) : fq2Legendre a = Fq2.legendre a := fqLegendre_eq_finLegendre _
+
+theorem fq2Legendre_eq_zero_iff (a : Fq2) : fq2Legendre a = 0 ↔ a = 0 := by
+  rw [fq2Legendre_eq]; exact Fq2.legendre_eq_zero_iff a
+theorem fq2Legendre_eq_one_iff (a : Fq2) : fq2Legendre a = 1 ↔ a ≠ 0 ∧ IsSquare a := by
+  rw [fq2Legendre_eq]; exact Fq2.legendre_eq_one_iff a
+theorem fq2Legendre_eq_neg_one_iff (a : Fq2) : fq2Legendre a = -1 ↔ ¬ IsSquare a := by
+  rw [fq2Legendre_eq]; exact Fq2.legendre_eq_neg_one_iff a
+theorem fq2Legendre_range (a : Fq2) : fq2Legendre a = 0 ∨ fq2Legendre a = 1 ∨ fq2Legendre a = -1 :=
+  fqLegendre_range _
+
+theorem fq2_qminusthreeoverfour_eq : Consts.fq2_qminusthreeoverfour = (q - 3) / 4 := by decide
+theorem fq2_qminusoneovertwo_eq : Consts.fq2_qminusoneovertwo = (q - 1) / 2 := by decide
+set_option exponentiation.threshold 800 in
+theorem fq2_qminusthreeoverfour_lt : Consts.fq2_qminusthreeoverfour < 2 ^ 384 := by decide
+set_option exponentiation.threshold 800 in
+theorem fq2_qminusoneovertwo_lt : Consts.fq2_qminusoneovertwo < 2 ^ 384 := by decide
+
+theorem fq2IsZero_eq (a : Fq2) : fq2IsZero a = (a == 0) := by
+  rw [fq2IsZero, Bool.eq_iff_iff]
+  simp only [Bool.and_eq_true, beq_iff_eq]
+  exact ⟨fun h => Q2.ext h.1 h.2, fun h => by subst h; exact ⟨rfl, rfl⟩⟩
+
+theorem fq2Equal_eq (a b : Fq2) : fq2Equal a b = (a == b) := by
+  rw [fq2Equal, Bool.eq_iff_iff]
+  simp only [Bool.and_eq_true, beq_iff_eq]
+  exact ⟨fun h => Q2.ext h.1 h.2, fun h => by subst h; exact ⟨rfl, rfl⟩⟩
+
+/-- `Fq2::square_root` as coded (two runs of the 384-bit exponentiation loop) is the model `fq2Sqrt` of
+`Impl/Encode.lean` (Spec powers), whose properties are proved in `Proofs/EncodeProofs.lean`. -/
+theorem fq2SquareRoot_eq (a : Fq2) : fq2SquareRoot a = fq2Sqrt a := by
+  unfold fq2SquareRoot fq2Sqrt
+  simp only [fq2IsZero_eq, fq2Equal_eq, fq2NegativeOne]
+  rw [fq2Exponentiate_eq_npow a fq2_qminusthreeoverfour_lt, fq2_qminusthreeoverfour_eq]
+  split
+  · rfl
+  · split
+    · rfl
+    · rw [fq2Exponentiate_eq_npow _ fq2_qminusoneovertwo_lt, fq2_qminusoneovertwo_eq]
+
+/-! ## canonical encodings: `write (read bs) = bs` exactly on the writer's range -/
+
+/-- the integer held in the `i`-th 48-byte chunk -/
+def beChunkNat (buffer : List UInt8) (i : Nat) : Nat := ofBytesBE ((buffer.drop (48 * i)).take 48)
+
+/-- `n` chunks of 48 bytes, each the big-endian form of an integer below `q` -/
+def Canonical (n : Nat) (bs : List UInt8) : Prop := bs.length = 48 * n ∧ ∀ i, i < n → beChunkNat bs i < q
+
+theorem chunk_take (bs : List UInt8) {n i : Nat} (h : i < n) :
+    ((bs.take (48 * n)).drop (48 * i)).take 48 = (bs.drop (48 * i)).take 48 := by
+  rw [List.drop_take, List.take_take, Nat.min_eq_left (by omega)]
+
+theorem beChunk_take (bs : List UInt8) {n i : Nat} (h : i < n) : beChunk (bs.take (48 * n)) i = beChunk bs i := by
+  rw [beChunk, beChunk, chunk_take bs h]
+
+theorem beChunkNat_take (bs : List UInt8) {n i : Nat} (h : i < n) :
+    beChunkNat (bs.take (48 * n)) i = beChunkNat bs i := by
+  rw [beChunkNat, beChunkNat, chunk_take bs h]
+
+theorem beChunkNat_drop (bs : List UInt8) (n i : Nat) : beChunkNat (bs.drop (48 * n)) i = beChunkNat bs (n + i) := by
+  rw [beChunkNat, beChunkNat, List.drop_drop, ← Nat.mul_add]
+
+theorem Canonical.split {n m : Nat} {bs : List UInt8} :
+    Canonical (n + m) bs ↔ Canonical n (bs.take (48 * n)) ∧ Canonical m (bs.drop (48 * n)) := by
+  constructor
+  · rintro ⟨hl, hc⟩
+    refine ⟨⟨by rw [List.length_take]; omega, fun i hi => ?_⟩, ⟨by rw [List.length_drop]; omega, fun i hi => ?_⟩⟩
+    · rw [beChunkNat_take bs hi]; exact hc i (by omega)
+    · rw [beChunkNat_drop]; exact hc _ (by omega)
+  · rintro ⟨⟨hl1, hc1⟩, ⟨hl2, hc2⟩⟩
+    rw [List.length_take] at hl1
+    rw [List.length_drop] at hl2
+    refine ⟨by omega, fun i hi => ?_⟩
+    by_cases h : i < n
+    · rw [← beChunkNat_take bs h]; exact hc1 i h
+    · have := hc2 (i - n) (by omega)
+      rw [beChunkNat_drop] at this
+      rwa [show n + (i - n) = i by omega] at this
+
+/-- one level of the tower: the encoding is `Wa hi ‖ Wb lo`, and the reader hands `buffer` to `Ra` and `&buffer[48n]`
+to `Rb`. -/
+theorem canonical_step {α β : Type} (Wa : α → List UInt8) (Ra : List UInt8 → α) (Wb : β → List UInt8)
+    (Rb : List UInt8 → β) {n m : Nat} (hWa : ∀ x, (Wa x).length = 48 * n)
+    (hRa : ∀ bs, Ra (bs.take (48 * n)) = Ra bs)
+    (ha : ∀ bs, Wa (Ra bs) = bs ↔ Canonical n bs) (hb : ∀ bs, Wb (Rb bs) = bs ↔ Canonical m bs)
+    (bs : List UInt8) :
+    Wa (Ra bs) ++ Wb (Rb (bs.drop (48 * n))) = bs ↔ Canonical (n + m) bs := by
+  rw [Canonical.split, ← ha, ← hb, hRa]
+  constructor
+  · intro h
+    have h1 := congrArg (List.take (48 * n)) h
+    have h2 := congrArg (List.drop (48 * n)) h
+    rw [List.take_left' (hWa _)] at h1
+    rw [List.drop_left' (hWa _)] at h2
+    exact ⟨h1, h2⟩
+  · rintro ⟨h1, h2⟩
+    rw [h1, h2, List.take_append_drop]
+
+theorem fqWriteBE_fqReadBE_iff (bs : List UInt8) : fqWriteBE (fqReadBE bs) = bs ↔ Canonical 1 bs := by
+  constructor
+  · intro h
+    have hl : bs.length = 48 := by rw [← h]; exact fqWriteBE_length _
+    refine ⟨hl, fun i hi => ?_⟩
+    obtain rfl : i = 0 := by omega
+    have hv := ofBytesBE_fqWriteBE (fqReadBE bs)
+    rw [h] at hv
+    rw [beChunkNat, Nat.mul_zero, List.drop_zero, List.take_of_length_le (by omega), hv]
+    exact (fqReadBE bs).isLt
+  · rintro ⟨hl, hc⟩
+    have hl' : bs.length = 48 := hl
+    have hq := hc 0 (by omega)
+    rw [beChunkNat, Nat.mul_zero, List.drop_zero, List.take_of_length_le (by omega)] at hq
+    rw [fqReadBE_eq hl', Nat.mod_eq_of_lt (lt_trans hq q_lt_2_381), fqWriteBE_eq]
+    have hval : (Fin.ofNat q (ofBytesBE bs)).val = ofBytesBE bs := Nat.mod_eq_of_lt hq
+    rw [hval]
+    have := toBytesBE_ofBytesBE bs
+    rwa [hl'] at this
+
+/-- **`write_big_endian (read_big_endian bs) = bs` exactly for the canonical buffers** (right length, every chunk `< q`):
+those are the writer's range, everything else is a non-canonical alias that the reader accepts silently. -/
+theorem fq2WriteBE_fq2ReadBE_iff (bs : List UInt8) : fq2WriteBE (fq2ReadBE bs) = bs ↔ Canonical 2 bs := by
+  have h := canonical_step fqWriteBE fqReadBE fqWriteBE fqReadBE (n := 1) (m := 1) fqWriteBE_length
+    (fun bs => fqReadBE_take bs) fqWriteBE_fqReadBE_iff fqWriteBE_fqReadBE_iff bs
+  rw [fq2WriteBE_eq]
+  exact h
+
+theorem fq2ReadBE_take (bs : List UInt8) : fq2ReadBE (bs.take (48 * 2)) = fq2ReadBE bs := by
+  simp only [fq2ReadBE_chunks]
+  rw [beChunk_take bs (by omega : 0 < 2), beChunk_take bs (by omega : 1 < 2)]
+
+theorem fq6WriteBE_fq6ReadBE_iff (bs : List UInt8) : fq6WriteBE (fq6ReadBE bs) = bs ↔ Canonical 6 bs := by
+  have h4 : ∀ bs', fq2WriteBE (fq2ReadBE bs') ++ id (fq2WriteBE (fq2ReadBE (bs'.drop (48 * 2)))) = bs' ↔
+      Canonical (2 + 2) bs' :=
+    canonical_step fq2WriteBE fq2ReadBE id (fun b => fq2WriteBE (fq2ReadBE b)) fq2WriteBE_length fq2ReadBE_take
+      fq2WriteBE_fq2ReadBE_iff fq2WriteBE_fq2ReadBE_iff
+  have h6 := canonical_step fq2WriteBE fq2ReadBE id
+    (fun b => fq2WriteBE (fq2ReadBE b) ++ id (fq2WriteBE (fq2ReadBE (b.drop (48 * 2))))) (n := 2) (m := 2 + 2)
+    fq2WriteBE_length fq2ReadBE_take fq2WriteBE_fq2ReadBE_iff h4 bs
+  rw [fq6WriteBE_eq]
+  simp only [id, List.drop_drop] at h6
+  simp only [fq6ReadBE, List.drop_zero, List.append_assoc]
+  exact h6
+
+theorem fq6ReadBE_take (bs : List UInt8) : fq6ReadBE (bs.take (48 * 6)) = fq6ReadBE bs := by
+  simp only [fq6ReadBE_chunks]
+  rw [beChunk_take bs (by omega : 0 < 6), beChunk_take bs (by omega : 1 < 6), beChunk_take bs (by omega : 2 < 6),
+    beChunk_take bs (by omega : 3 < 6), beChunk_take bs (by omega : 4 < 6), beChunk_take bs (by omega : 5 < 6)]
+
+theorem fq12WriteBE_fq12ReadBE_iff (bs : List UInt8) : fq12WriteBE (fq12ReadBE bs) = bs ↔ Canonical 12 bs := by
+  have h := canonical_step fq6WriteBE fq6ReadBE fq6WriteBE fq6ReadBE (n := 6) (m := 6) fq6WriteBE_length
+    fq6ReadBE_take fq6WriteBE_fq6ReadBE_iff fq6WriteBE_fq6ReadBE_iff bs
+  rw [fq12WriteBE_eq]
+  exact h
+
+/-- a non-canonical alias: the 48 bytes of `q` itself read as 0 (and `0xff…ff` reads as `(2^381 − 1) mod q`). -/
+theorem fqReadBE_modulus : fqReadBE (toBytesBE 48 q) = 0 := by
+  rw [fqReadBE_eq (toBytesBE_length 48 q), ofBytesBE_toBytesBE_of_lt q_lt_256_48, Nat.mod_eq_of_lt q_lt_2_381]
+  exact Fin.ext (Nat.mod_self q)
+
 end Jedi.Impl
